@@ -371,9 +371,15 @@ def _ods_generator(repo):
             raise Unrecognised(f"_initialize_output_file: missing `{n[:60]}`")
     keyed = src.count("years_2_accounting_method_names[MIN_DATE.year]")
     by_value = "next(iter(years_2_accounting_method_names.values()))" in src
-    if keyed == 0 and by_value:
+    app_value = "accounting_method_by_year.append(accounting_method.upper())" in have
+    app_keyed = "accounting_method_by_year.append(years_2_accounting_method_names[MIN_DATE.year].upper())" in have
+    n_app = sum(1 for x in have if x.startswith("accounting_method_by_year.append("))
+    if n_app != 3:
+        raise Unrecognised("_initialize_output_file: method list construction")
+    if keyed == 0 and by_value and app_value and ("accounting_method: str = next(iter(years_2_accounting_method_names.values())) "
+                                                  "if len(years_2_accounting_method_names) == 1 else 'mixed'") in have:
         single_by_value = True
-    elif keyed == 2 and not by_value:
+    elif keyed == 2 and not by_value and app_keyed:
         single_by_value = False
     else:
         raise Unrecognised("_initialize_output_file: single-method lookup shape")
@@ -498,7 +504,7 @@ def frag_full_report(repo):
                 raise Unrecognised("__generate_asset: row map cleared after a table was written")
             clears = True
             continue
-        if "row_index" in U(s) and not isinstance(s, ast.Return):
+        if ("row_index" in U(s) or "_2_row" in U(s)) and not isinstance(s, ast.Return):
             raise Unrecognised(f"__generate_asset: statement {U(s)[:60]}")
     if pos != len(order) or resets != 2:
         raise Unrecognised("__generate_asset: table calls")
